@@ -8,6 +8,13 @@ M = [
  dict(id='D5-folding-of-another-file', file=S, old="            let Some(folding_ranges) = snap.analysis.folding_range(file_id) else {", new="            let Some(folding_ranges) = snap.analysis.folding_range(ide::file_system::FileId(0)) else {", expect='C09'),
  dict(id='D6-links-with-root-index', file=S, old="            let (file_id, line_index) = from_proto::file(&snap, params.text_document);\n            let Some(links)", new="            let (file_id, _) = from_proto::file(&snap, params.text_document);\n            let line_index = snap.analysis.line_index(ide::file_system::FileId(0));\n            let Some(links)", expect='C09'),
 ]
+VF = 'vfs.rs'
+M += [
+ dict(id='V1-disk-before-buffer', file=VF, old="        if let Some(text) = self.open_documents.get(file_path) {\n            return Some(text.clone());\n        }\n\n        let Ok(content) = fs::read_to_string(&file_path.0) else {\n            tracing::info!(\"failed to read file: file_path={file_path:?}\");\n            return None;\n        };\n\n        Some(content)",
+      new="        if let Ok(content) = fs::read_to_string(&file_path.0) {\n            return Some(content);\n        }\n        self.open_documents.get(file_path).cloned()", expect='C12'),
+ dict(id='V2-buffer-not-recorded', file=VF, old="        self.open_documents.insert(path, text);", new="        let _ = (path, text);", expect='C12'),
+ dict(id='V3-first-buffer-kept', file=VF, old="        self.open_documents.insert(path, text);", new="        if !self.open_documents.contains_key(&path) { self.open_documents.insert(path, text); }", expect='C12'),
+]
 BENIGN = [
  dict(id='B1-definition-index-before-lock', file=S, old="            let vfs = snap.vfs.read().unwrap();\n            // the definition may lie in an included file: use that file's line index\n            let line_index = snap.analysis.line_index(location.file);\n", new="            let line_index = snap.analysis.line_index(location.file);\n            let vfs = snap.vfs.read().unwrap();\n"),
 ]
